@@ -128,3 +128,36 @@ func SameShape(a, b []Tok) error {
 	}
 	return nil
 }
+
+// Canon renders the token sequence of a document in the canonical form tgen's reference
+// interpreter uses: markup tokens wrapped in \x00 ... \x01 with decoded, quoted attribute values,
+// text as its decoded characters.
+func Canon(out []byte) (string, error) {
+	toks, err := Tokens(out)
+	if err != nil {
+		return "", err
+	}
+	var sb strings.Builder
+	for _, t := range toks {
+		switch t.Type {
+		case "start", "selfclosing":
+			sb.WriteString("\x00<" + t.Name)
+			for _, a := range t.Attrs {
+				fmt.Fprintf(&sb, " %s=%q", a.Name, a.Val)
+			}
+			if t.Type == "selfclosing" {
+				sb.WriteString("/")
+			}
+			sb.WriteString(">\x01")
+		case "end":
+			sb.WriteString("\x00</" + t.Name + ">\x01")
+		case "comment":
+			sb.WriteString("\x00<!--" + t.Data + "-->\x01")
+		case "doctype":
+			sb.WriteString("\x00<!doctype " + t.Data + ">\x01")
+		case "text":
+			sb.WriteString(t.Data)
+		}
+	}
+	return sb.String(), nil
+}
